@@ -9,6 +9,9 @@
 //!            contents shorter than / equal to / longer than the maximum width, a message of
 //!            varying length; a systematic block (templates × 5 levels × lengths around the
 //!            limit) on every run plus random patterns
+//!   plan     like console, but the child gets a PLAN: several appenders (target, tty_only, builder
+//!            call order / config deserializer), built in the given order, each then appending one
+//!            record per level; stdout and stderr independently a pty or a pipe
 //!   console  a child process (`verif-harness child c18 <target> <tty_only>`) that builds a real
 //!            `ConsoleAppender` and appends one record per level; its stdout / stderr are each a
 //!            pseudo-terminal or a pipe (tools/pty_run.py), under each of the 27 settings of
@@ -270,6 +273,92 @@ pub fn gen(rng: &mut Rng, n: usize, thorough: bool, emit: &mut dyn FnMut(String)
             emit(console_line(*env, tty, tty, target, true));
         }
     }
+    // 2b. several appenders in one process / other builder call orders (`plan` cases).
+    //     item = <o|e><tty_only><a|b|c>: a = .target().tty_only(), b = .tty_only().target(), c = config deserializer
+    let bools = [true, false];
+    let unset = ["-", "-", "-"];
+    let plan_line = |env: [&str; 3], tty_out: bool, tty_err: bool, items: &str| -> String {
+        format!("plan\t{}\t{}\t{}\t{}\t{}\t{}", env[0], env[1], env[2], enc_bool(tty_out), enc_bool(tty_err), items)
+    };
+    let singles: Vec<String> = {
+        let mut v = vec![];
+        for t in ["o", "e"] {
+            for b in ["1", "0"] {
+                for o in ["a", "b", "c"] {
+                    v.push(format!("{}{}{}", t, b, o));
+                }
+            }
+        }
+        v
+    };
+    if thorough {
+        // nothing set in the environment: every single appender and every ordered pair of the 12
+        for tty_out in bools {
+            for tty_err in bools {
+                for a in &singles {
+                    emit(plan_line(unset, tty_out, tty_err, a));
+                    for b in &singles {
+                        emit(plan_line(unset, tty_out, tty_err, &format!("{},{}", a, b)));
+                    }
+                }
+                emit(plan_line(unset, tty_out, tty_err, "o1b,e1b,o0c"));
+                emit(plan_line(unset, tty_out, tty_err, "e0a,e1b,o1b,e1c"));
+            }
+        }
+        // every environment: single appenders in call orders b and c (a is the console matrix above)
+        // and the pairs on different streams, both build orders, all tty_only combinations
+        for env in &envs {
+            for tty_out in bools {
+                for tty_err in bools {
+                    for a in singles.iter().filter(|s| !s.ends_with('a')) {
+                        emit(plan_line(*env, tty_out, tty_err, a));
+                    }
+                    // (streams of the same kind: only the call order that looks things up early)
+                    let orders: &[&str] = if tty_out != tty_err { &["a", "b", "c"] } else { &["b"] };
+                    for o in orders {
+                        for bo in ["1", "0"] {
+                            for be in ["1", "0"] {
+                                emit(plan_line(*env, tty_out, tty_err, &format!("o{}{},e{}{}", bo, o, be, o)));
+                                emit(plan_line(*env, tty_out, tty_err, &format!("e{}{},o{}{}", be, o, bo, o)));
+                            }
+                        }
+                    }
+                }
+            }
+        }
+    } else {
+        for tty_out in bools {
+            for tty_err in bools {
+                // single restricted / unrestricted appender, call orders b and c, both targets
+                for a in singles.iter().filter(|s| !s.ends_with('a')) {
+                    emit(plan_line(unset, tty_out, tty_err, a));
+                }
+                // two appenders on different streams: both build orders × call orders × tty_only
+                for o in ["a", "b", "c"] {
+                    for (bo, be) in [("1", "1"), ("0", "0"), ("1", "0"), ("0", "1")] {
+                        emit(plan_line(unset, tty_out, tty_err, &format!("o{}{},e{}{}", bo, o, be, o)));
+                        emit(plan_line(unset, tty_out, tty_err, &format!("e{}{},o{}{}", be, o, bo, o)));
+                    }
+                }
+                // mixed call orders, same stream twice, three appenders
+                emit(plan_line(unset, tty_out, tty_err, "o1b,e1a"));
+                emit(plan_line(unset, tty_out, tty_err, "e1c,o1b"));
+                emit(plan_line(unset, tty_out, tty_err, "e1b,e0b"));
+                emit(plan_line(unset, tty_out, tty_err, "o1b,e1b,o0c"));
+                // forced / disabled colour with two restricted appenders, tty_only called first
+                for env in [["1", "-", "-"], ["-", "0", "-"], ["-", "-", "1"], ["-", "0", "1"]] {
+                    emit(plan_line(env, tty_out, tty_err, "o1b,e1b"));
+                    emit(plan_line(env, tty_out, tty_err, "e0b,o0b"));
+                }
+            }
+        }
+        // one random two-appender plan per environment
+        for env in &envs {
+            let a: &String = rng.pick(&singles);
+            let b: &String = rng.pick(&singles);
+            emit(plan_line(*env, rng.chance(1, 2), rng.chance(1, 2), &format!("{},{}", a, b)));
+        }
+    }
     // 3. highlight groups with width parameters, systematic: templates × level × message length
     //    around the limit (`W` in a template is the limit; the message has W-1, W, W+1 … characters)
     let templates: [(&str, usize); 12] = [
@@ -483,11 +572,17 @@ fn pty_helper() -> Option<PathBuf> {
     cands.into_iter().find(|p| p.is_file())
 }
 
-fn exec_console(f: &[&str]) -> String {
+fn valid_item(it: &str) -> bool {
+    let b = it.as_bytes();
+    b.len() == 3 && (b[0] == b'o' || b[0] == b'e') && (b[1] == b'0' || b[1] == b'1') && (b'a'..=b'c').contains(&b[2])
+}
+
+/// f = [NO_COLOR, CLICOLOR, CLICOLOR_FORCE, tty stdout?, tty stderr?], items = the plan
+fn exec_plan(f: &[&str], items: &str) -> String {
     let ok_env = |s: &str| s == "-" || s == "0" || s == "1";
     let ok_bool = |s: &str| s == "0" || s == "1";
-    if !(ok_env(f[0]) && ok_env(f[1]) && ok_env(f[2]) && ok_bool(f[3]) && ok_bool(f[4]) && ok_bool(f[6]))
-        || !(f[5] == "stdout" || f[5] == "stderr")
+    if !(f.len() == 5 && ok_env(f[0]) && ok_env(f[1]) && ok_env(f[2]) && ok_bool(f[3]) && ok_bool(f[4]))
+        || !dec_list(',', items).iter().all(|it| valid_item(it))
     {
         return "bad-case".to_owned();
     }
@@ -501,7 +596,7 @@ fn exec_console(f: &[&str]) -> String {
     };
     let kind = |s: &str| if s == "1" { "tty" } else { "pipe" };
     let mut cmd = Command::new("python3");
-    cmd.arg(&helper).arg(kind(f[3])).arg(kind(f[4])).arg("--").arg(&exe).args(["child", "c18", f[5], f[6]]);
+    cmd.arg(&helper).arg(kind(f[3])).arg(kind(f[4])).arg("--").arg(&exe).args(["child", "c18", "plan", items]);
     // a controlled environment: the three variables exactly as the case says, nothing inherited
     for (var, val) in VARS.iter().zip(f[0..3].iter()) {
         cmd.env_remove(var);
@@ -525,6 +620,19 @@ fn exec_console(f: &[&str]) -> String {
     }
 }
 
+/// the old single-appender case: `<target> <tty_only>` = the plan `<o|e><tty_only>a`
+fn exec_console(f: &[&str]) -> String {
+    let t = match f[5] {
+        "stdout" => "o",
+        "stderr" => "e",
+        _ => return "bad-case".to_owned(),
+    };
+    if !(f[6] == "0" || f[6] == "1") {
+        return "bad-case".to_owned();
+    }
+    exec_plan(&f[0..5], &format!("{}{}a", t, f[6]))
+}
+
 pub fn exec(fields: &[&str]) -> String {
     match fields {
         ["style", t, b, i] => exec_style(t, b, i),
@@ -534,6 +642,7 @@ pub fn exec(fields: &[&str]) -> String {
             None => "bad-case".to_owned(),
         },
         [kind, rest @ ..] if *kind == "console" && rest.len() == 7 => exec_console(rest),
+        ["plan", nc, cc, cf, to, te, items] => exec_plan(&[nc, cc, cf, to, te], items),
         _ => "bad-case".to_owned(),
     }
 }
@@ -543,32 +652,64 @@ pub fn exec(fields: &[&str]) -> String {
 // exit code 0 = all five appends returned Ok, 3 = panic, 4 = an append returned Err, 2 = usage
 // ---------------------------------------------------------------------------------------------
 pub fn child(args: &[String]) -> i32 {
-    if args.len() != 2 {
+    let items: Vec<String> = match args {
+        [p, items] if p == "plan" => dec_list(',', items),
+        [t, b] if (t == "stdout" || t == "stderr") && (b == "0" || b == "1") => {
+            vec![format!("{}{}a", if t == "stdout" { "o" } else { "e" }, b)]
+        }
+        _ => return 2,
+    };
+    if !items.iter().all(|it| valid_item(it)) {
         return 2;
     }
-    let target = match args[0].as_str() {
-        "stdout" => Target::Stdout,
-        "stderr" => Target::Stderr,
-        _ => return 2,
-    };
-    let tty_only = match args[1].as_str() {
-        "1" => true,
-        "0" => false,
-        _ => return 2,
-    };
     let r = guarded(AssertUnwindSafe(|| {
-        let appender = ConsoleAppender::builder()
-            .target(target)
-            .tty_only(tty_only)
-            .encoder(Box::new(PatternEncoder::new(CHILD_PATTERN)))
-            .build();
+        // build every appender of the plan, in order …
+        let mut built: Vec<Box<dyn Append>> = vec![];
+        for it in &items {
+            let b = it.as_bytes();
+            let target = if b[0] == b'o' { Target::Stdout } else { Target::Stderr };
+            let tty_only = b[1] == b'1';
+            let appender: Box<dyn Append> = match b[2] {
+                b'a' => Box::new(
+                    ConsoleAppender::builder()
+                        .encoder(Box::new(PatternEncoder::new(CHILD_PATTERN)))
+                        .target(target)
+                        .tty_only(tty_only)
+                        .build(),
+                ),
+                b'b' => Box::new(
+                    ConsoleAppender::builder()
+                        .tty_only(tty_only)
+                        .target(target)
+                        .encoder(Box::new(PatternEncoder::new(CHILD_PATTERN)))
+                        .build(),
+                ),
+                _ => {
+                    // through the registered `console` deserializer, as a config file would
+                    let doc = format!(
+                        r#"{{"kind":"console","target":"{}","tty_only":{},"encoder":{{"kind":"pattern","pattern":"{}"}}}}"#,
+                        if b[0] == b'o' { "stdout" } else { "stderr" },
+                        tty_only,
+                        CHILD_PATTERN
+                    );
+                    match deserialize_console(&doc) {
+                        Some(a) => a,
+                        None => return true,
+                    }
+                }
+            };
+            built.push(appender);
+        }
+        // … then each appends one record per level
         let mut failed = false;
-        for lvl in [Level::Error, Level::Warn, Level::Info, Level::Debug, Level::Trace] {
-            if appender
-                .append(&Record::builder().level(lvl).target("t").args(format_args!("msg")).build())
-                .is_err()
-            {
-                failed = true;
+        for appender in &built {
+            for lvl in [Level::Error, Level::Warn, Level::Info, Level::Debug, Level::Trace] {
+                if appender
+                    .append(&Record::builder().level(lvl).target("t").args(format_args!("msg")).build())
+                    .is_err()
+                {
+                    failed = true;
+                }
             }
         }
         failed
@@ -578,4 +719,28 @@ pub fn child(args: &[String]) -> i32 {
         Ok(true) => 4,
         Err(_) => 3,
     }
+}
+
+/// one appender through `Deserializers::default()` (kind `console`), the way `load_config_file` does it
+fn deserialize_console(appender_json: &str) -> Option<Box<dyn Append>> {
+    let doc = format!(r#"{{"appenders":{{"a":{}}}}}"#, appender_json);
+    let raw: log4rs::config::RawConfig = serde_json::from_str(&doc).ok()?;
+    let (apps, errs) = raw.appenders_lossy(&log4rs::config::Deserializers::default());
+    if !errs.is_empty() || apps.len() != 1 {
+        return None;
+    }
+    // `config::Appender` owns the `Box<dyn Append>`; wrap it so that it can live in the plan's list
+    struct Owned(log4rs::config::Appender);
+    impl std::fmt::Debug for Owned {
+        fn fmt(&self, f: &mut std::fmt::Formatter) -> std::fmt::Result {
+            f.write_str("Owned")
+        }
+    }
+    impl Append for Owned {
+        fn append(&self, record: &Record) -> anyhow::Result<()> {
+            self.0.appender().append(record)
+        }
+        fn flush(&self) {}
+    }
+    apps.into_iter().next().map(|a| Box::new(Owned(a)) as Box<dyn Append>)
 }
